@@ -563,6 +563,15 @@ def gen_edge_cases(rng):
             case(pt)
             case({'k': 'rev', 'body': pt})
             case({'k': 'seq', 'subs': [pt, {'k': 'aarith', 'l': const(['B'], 1, F(1)), 'op': op, 'r': ramp('A', 1)}]}, cm=[['B', 'Z']])
+    # channel ids whose Python hashes collide (hash(-1) == hash(-2)): two channels, swapped, one dropped, overwritten
+    two = {'k': 'multi', 'subs': [ramp(-1), ramp(-2, 2, 3, -1)]}
+    case(two)
+    case({'k': 'map', 'pm': [], 'chm': [[-1, -2], [-2, -1]], 'body': two})
+    case(two, cm=[[-1, None]])
+    case(two, cm=[[-2, -1], [-1, -2]])
+    case({'k': 'par', 'body': ramp(-1), 'ow': [[-2, C(F(1, 2))]]})
+    case({'k': 'arith', 'lhs': True, 'op': '*', 'scalar': {'map': [[-2, C(2)]]}, 'body': {'k': 'seq', 'subs': [two, two]}})
+    case({'k': 'aarith', 'l': two, 'op': '-', 'r': const([-2], 2, F(1))})
     # templates of duration 0 on their own / as members: tables and points whose times are all 0, constants of duration 0
     zero_t = {'k': 'table', 'chs': [['A', [[C(0), C(1), 'hold']]]]}
     zero_t2 = {'k': 'table', 'chs': [['A', [[C(0), C(1), 'hold'], [['v', 'd'], C(2), 'hold']]]]}
